@@ -160,8 +160,8 @@ Proof. vm_compute. discriminate. Qed.
 
 (* ------------------------------------------------------------------------------------------- *)
 (* NO ORACLE PREMISE on the sub-class of builder states covered by MinAda/TxSize.v (C07, over C13's encoder lemmas) and
-   Witnesses/* (C18): key and Byron inputs, plain / asset / datum / script-ref outputs, explicit required signers; no
-   certificates, withdrawals, mint, scripts, reference inputs, collateral, ttl, auxiliary data.
+   Witnesses/* (C18): key and Byron inputs, plain / asset / datum / script-ref outputs; no explicit required signers
+   (also a body field), certificates, withdrawals, mint, scripts, reference inputs, collateral, ttl, auxiliary data.
    [FeeConcrete.cenv I a b max_tx] is the size environment made concrete (K from C18's model of count_needed_vkeys /
    get_bootstraps on the builder's history and TxSize's size algebra; the fee is C15's linear fee of that size);
    the fee oracle is [with_fee (cenv ..) base] with ARBITRARY min-ADA / size-test / selection answers [base].
